@@ -246,6 +246,17 @@ def case_split(ctx, rng, wd):
         for f in os.listdir(wd):
             if f.startswith("vf"):
                 os.remove(os.path.join(wd, f))
+    # history: the caller moves the particles of the SAME snapshot object in place (the only way to update a frozen record) and
+    # decomposes again with the same wave vectors and box: the transform must belong to the configuration the object holds now
+    if frames[0].positions.flags.writeable and rng.random() < 0.5:
+        newpos = cell["origin"] + rng.random((N, d)) * L
+        frames[0].positions[...] = newpos
+        ok, res = ctx.call("vector_decomposition_sq/updated_in_place", vector_decomposition_sq, frames[0], nv.copy(), fields[0].copy(), "", data=info)
+        if ok:
+            Fu = (np.exp(-1j * (newpos @ q.T))[:, :, None] * fields[0][:, None, :]).sum(axis=0) / np.sqrt(N)
+            Fo = res[0][[f"FFT{a}" for a in range(d)]].values.astype(complex)
+            ctx.close("updated_in_place", Fo, Fu, "vector_decomposition_sq/updated_in_place", rtol=1e-9, atol=2e-8, scale=max(1.0, float(np.abs(Fu).max())),
+                      what="transform after the snapshot's positions were updated in place", data=info)
 
 
 def run(ctx):
